@@ -50,7 +50,7 @@ def strategy_(draw, tier):
         c.pop("time")
         return c
     kinds = ("quadratic", "quadratic", "geometric", "geometric", "uniform", "random", "big", "repeat")
-    c = draw(flowcase.sim_case(nx_max=100, max_steps=300, table_nmax=300, time_kinds=kinds) if tier == "quick" else flowcase.sim_case(nx_max=400, max_steps=1500, table_nmax=600, time_kinds=kinds))
+    c = draw(flowcase.sim_case(nx_max=400, max_steps=300, table_nmax=300, time_kinds=kinds) if tier == "quick" else flowcase.sim_case(nx_max=400, max_steps=1500, table_nmax=600, time_kinds=kinds))
     c["kind"] = "run"
     return c
 
@@ -138,7 +138,9 @@ def check_run(case, res):
     step = float(np.max(np.abs(np.diff(m[:, 1:], axis=0)))) / r.d if nt > 1 and r.d > 0 else 0.0
     theta = min(1.0, var) * step
     gap = float(np.max(np.abs(rff - rfd)))
-    admissible = C_GAP * ceiling * (1.0 / nx + theta) + e_t + eps + 1e-9 * ceiling
+    # rounding of the one-sided flux stencil (cancellation among three nearly equal values) integrated over time
+    round_flux = 64 * np.finfo(float).eps * abs(r.m_i) * nx * float(t[-1] - t[0])
+    admissible = C_GAP * ceiling * (1.0 / nx + theta) + e_t + eps + 1e-9 * ceiling + round_flux
     k = int(np.argmax(np.abs(rff - rfd)))
     if admissible < ceiling:  # otherwise the bound says nothing (coarse first step: E_t alone exceeds the ceiling)
         res.check(
@@ -148,7 +150,7 @@ def check_run(case, res):
             f"flux recovery {rff[k]!r} vs in-place {rfd[k]!r} at t={t[k]!r} (ceiling {ceiling!r}, nx={nx}, E_t={e_t!r}, eps_table={eps!r}, theta={theta!r}, p_f/p_i={r.p_f / r.p_i!r});",
         )
     # in-place recovery never exceeds the ceiling
-    res.check("C03/in-place-below-ceiling", max(float(np.max(rfd)) - ceiling, 0.0), 1e-9 * ceiling + 1e-13, f"in-place recovery {float(np.max(rfd))!r} above 1 - rho_f/rho_i = {ceiling!r} (p_f/p_i={r.p_f / r.p_i!r}, nx={nx});")
+    res.check("C03/in-place-below-ceiling", max(float(np.max(rfd)) - ceiling, 0.0), 1e-9 * ceiling + 1e-13 + 64 * np.finfo(float).eps * nx, f"in-place recovery {float(np.max(rfd))!r} above 1 - rho_f/rho_i = {ceiling!r} (p_f/p_i={r.p_f / r.p_i!r}, nx={nx});")
     # monotone in time while the frac-face pressure does not rise
     sched = r.schedule
     non_rising = sched is None or bool(np.all(np.diff(sched) <= 0))
@@ -163,7 +165,8 @@ def check_run(case, res):
         mass0 = float(np.sum(dens[0]))
         regain = np.maximum(dens[1:, 0] - dens[:-1, 0], 0.0) / mass0
         drop = -np.diff(rfd) - regain
-        res.check("C03/in-place-recovery-non-decreasing", max(float(np.max(drop)), 0.0), 1e-9 * ceiling + 1e-12, f"in-place recovery decreases by more than node 0 regains: {float(np.max(drop))!r} (ceiling {ceiling!r});")
+        # 1 - sum(rho)/sum(rho_0) over nx nodes carries a rounding error of ~ eps nx in absolute terms
+        res.check("C03/in-place-recovery-non-decreasing", max(float(np.max(drop)), 0.0), 1e-9 * ceiling + 1e-12 + 64 * np.finfo(float).eps * nx, f"in-place recovery decreases by more than node 0 regains: {float(np.max(drop))!r} (ceiling {ceiling!r});")
     rb = c01.relaxation_bound(r) if r.constant_drawdown and nt > 1 else float("inf")
     res.labels["gap_oracle"] = "effective" if admissible < 0.5 * ceiling else "vacuous"
     res.nontrivial = bool(nx >= 5 and (rb < 1e-2 * r.d or nt >= 51) and admissible < 0.5 * ceiling)
